@@ -8,6 +8,7 @@ mod shapes;
 mod heavy;
 mod ops_svgw;
 mod ops_pathmut;
+mod ops_quartic;
 
 pub struct Rd<'a> {
     pub t: Vec<&'a str>,
@@ -210,7 +211,10 @@ fn run_line(line: &str) -> String {
         None => match shapes::run(op, &mut rd) {
             None => match heavy::run(op, &mut rd) {
                 None => match ops_svgw::run(op, &mut rd) {
-                    None => ops_pathmut::run(op, &mut rd),
+                    None => match ops_pathmut::run(op, &mut rd) {
+                        None => ops_quartic::run(op, &mut rd),
+                        x => x,
+                    },
                     x => x,
                 },
                 x => x,
